@@ -62,6 +62,16 @@ func genC15(t *rapid.T) C15Case {
 	c := C15Case{Stack: rapid.SampledFrom([]string{"plain", "plain-longidle", "tls", "pp", "pp", "pp+tls", "mitm"}).Draw(t, "stack")}
 	n := rapid.SampledFrom([]int{1, 1, 2, 3, 5, 10, 40}).Draw(t, "nstalled")
 	pts := stallPoints(c.Stack)
+	if rapid.IntRange(0, 3).Draw(t, "crowd") == 0 {
+		// a crowd: many peers stalled in the same phase (more than any per-phase budget the proxy might keep)
+		n = rapid.SampledFrom([]int{40, 64, 100}).Draw(t, "crowdsize")
+		pt := rapid.SampledFrom(pts).Draw(t, "crowdpoint")
+		for i := 0; i < n; i++ {
+			c.Stalled = append(c.Stalled, C15Stall{Point: pt, K: 1 + i%150})
+		}
+		c.Bystander = true
+		return c
+	}
 	for i := 0; i < n; i++ {
 		c.Stalled = append(c.Stalled, C15Stall{Point: rapid.SampledFrom(pts).Draw(t, "point"), K: rapid.IntRange(1, 200).Draw(t, "k")})
 	}
